@@ -54,6 +54,7 @@ ID = "C02"
 FUNCTIONS_ENCODED = [
     "pyanalyze.stacked_scopes.constrain_value / _constrain_value", "pyanalyze.stacked_scopes.Constraint.apply_to_value (is_instance, is_value, is_truthy, predicate, one_of, all_of)",
     "pyanalyze.stacked_scopes.Constraint.invert / AndConstraint.make / apply / invert / OrConstraint.make / apply / invert",
+    "pyanalyze.stacked_scopes.extract_constraints / annotate_with_constraint (constraints carried by the value of a boolean `or`, incl. a disjunct without constraint)",
     "pyanalyze.predicates.IsAssignablePredicate / EqualsPredicate / InPredicate",
     "pyanalyze.name_check_visitor.NameCheckVisitor._constraint_from_compare_op / _constraint_from_predicate_provider (on a stub self)",
     "pyanalyze.implementation._isinstance_impl / _len_impl / len_of_value / len_transformer",
@@ -313,6 +314,22 @@ def h02_pair(p0: int, p1: int, k1: int, k2: int, oi: int, oj: int, s: str, s1: s
     o = M.make_object(data["okind"], oi, oj, s)
     o2 = M.make_object(data["okind2"], oj, oi, s)
     c1, f1, t1, st1 = build(data["cond"], k1, k2, s1, stub)
+    if data["join"] == "ornull":
+        # `flag() or <cond>`: the value of a boolean `or` is the union of its operands' values; the first
+        # carries no constraint at all.  extract_constraints must combine them so that nothing is narrowed
+        # in the positive branch (flag() may be what held) and the negation narrows by not <cond>.
+        from pyanalyze.stacked_scopes import annotate_with_constraint
+
+        val = MultiValuedValue([TypedValue(bool), annotate_with_constraint(TypedValue(bool), c1)])
+        if data.get("swap"):
+            val = MultiValuedValue([annotate_with_constraint(TypedValue(bool), c1), TypedValue(bool)])
+        c = extract_constraints(val)
+        pol = data["pol"]
+        f = (lambda x: True) if pol else (lambda x: bool(f1(x)))
+        if excluded(p0=p0, p1=p1, k1=k1, k2=k2, oi=oi, oj=oj, feat_float_else=(data["cond"] == ["isinstance", "float"])):
+            return skip()
+        ok, nontrivial = _narrow_check(V_t, c, f, t1, st1, pol, o, o2)
+        return fin(ok, nontrivial)
     c2, f2, t2, st2 = build(data["cond2"], k2, k1, s1, stub)
     if data["join"] == "and":
         c = AndConstraint.make([c1, c2])
@@ -417,6 +434,15 @@ def cases(tier: str, seed: int) -> List[Case]:
     for V in VALUES:
         for ok in _okinds(V):
             out.append(Case("h02_bool", f"b:{M.tname(V)}|{ok}", {"V": V, "okind": ok}, timeout=60, twin=False))
+    # `flag() or <cond>`: a disjunct without any constraint (extract_constraints on a union value)
+    for V in [("union", ("int",), ("str",)), ("union", ("int",), ("none",)), ("union", ("lit", P0), ("lit", P1), ("str",)), ("union", ("enum",), ("none",))]:
+        for cond in (["isinstance", "int"], ["is", "is", "None"], ["cmp", "==", "int"], ["truthy"], ["isinstance", "str"]):
+            for pol in (True, False):
+                for swap in (0, 1):
+                    for ok in _okinds(V)[:2]:
+                        out.append(Case("h02_pair", f"o:{M.tname(V)}|{cname(cond)}|ornull{swap}|{'+' if pol else '-'}|{ok}",
+                                        {"V": V, "cond": cond, "cond2": cond, "join": "ornull", "swap": swap, "pol": pol, "okind": ok,
+                                         "okind2": "int"}, timeout=60 if quick else 240, twin=True, vacuous_ok=True))
     if not quick:
         pcs = [["cmp", "==", "int"], ["cmp", "<", "int"], ["is", "is", "None"], ["truthy"], ["isinstance", "int"], ["isinstance", "str"], ["len", "=="]]
         pvs = [("union", ("lit", P0), ("lit", P1), ("str",)), ("union", ("int",), ("none",)), ("union", ("int",), ("str",)),
